@@ -127,7 +127,15 @@ def read_view(ro):
     try:
         with warnings.catch_warnings():
             warnings.filterwarnings('error', category=DeprecationWarning)     # see impl.add
-            return {'view': _read_all(ro)}
+            before_ = _ET.tostring(ro.xml, encoding='unicode')
+            v_ = _read_all(ro)
+            str(ro)
+            v2_ = _read_all(ro)
+            if _ET.tostring(ro.xml, encoding='unicode') != before_:
+                return {'crash': 'reading the accessors (or str / repr) changed the document'}
+            if v2_ != v_:
+                return {'crash': 'the accessors answer differently when read a second time'}
+            return {'view': v_}
     except Unrepresentable as e:
         # a value that is negative or not a whole number of microseconds: inside the domain (decimal durations, parseable
         # times) no accessor may return one - judged like any other wrong observation; outside it nothing is judged
